@@ -87,10 +87,17 @@ func HeaderBlock(feature string) []byte {
 }
 
 // DenseBlock returns an OSMData block holding nodes with the given ids (possibly none).
-func DenseBlock(ids []int64, useZlib, corrupt bool) []byte {
+func DenseBlock(ids []int64, useZlib, corrupt bool) []byte { return DenseBlockX(ids, useZlib, corrupt, 0, 0) }
+
+// DenseBlockX: gran > 0 writes a granularity field (absent otherwise: the format default applies); pad > 0 adds an unused
+// string of that many bytes to the string table (a block whose uncompressed size is large although it holds few elements).
+func DenseBlockX(ids []int64, useZlib, corrupt bool, gran int, pad int) []byte {
 	var st []byte
 	for _, s := range []string{"", "k", "v"} {
 		st = fBytes(st, 1, []byte(s))
+	}
+	if pad > 0 {
+		st = fBytes(st, 1, bytes.Repeat([]byte("padding "), pad/8))
 	}
 	var pb []byte
 	pb = fBytes(pb, 1, st)
@@ -114,13 +121,18 @@ func DenseBlock(ids []int64, useZlib, corrupt bool) []byte {
 		d = fBytes(d, 9, packed(delta(lons)))
 		pb = fBytes(pb, 2, fBytes(nil, 2, d))
 	}
+	if gran > 0 {
+		pb = fVar(pb, 17, uint64(gran))
+	}
 	return FileBlock("OSMData", pb, useZlib, corrupt)
 }
 
 // Block is one abstract block of a configuration.
 type Block struct {
-	K string `json:"k"` // "data" | "bad" | "type"
-	N int    `json:"n"`
+	K   string `json:"k"` // "data" | "bad" | "type"
+	N   int    `json:"n"`
+	G   int    `json:"g,omitempty"`   // granularity field of the block (0 = absent)
+	Pad int    `json:"pad,omitempty"` // bytes of unused string-table padding
 }
 
 // Cfg is the file-shaped part of a PbfPipeline configuration.
@@ -174,7 +186,10 @@ func Build(c Cfg, variant int) File {
 		z := (b+variant)%2 == 0
 		switch blk.K {
 		case "data":
-			out = append(out, DenseBlock(ids, z, false)...)
+			if blk.Pad > 0 {
+				z = true
+			}
+			out = append(out, DenseBlockX(ids, z, false, blk.G, blk.Pad)...)
 			f.Per = append(f.Per, blk.N)
 		case "bad":
 			out = append(out, DenseBlock([]int64{id + 500}, true, true)...)
